@@ -606,7 +606,14 @@ struct Exec
             last_aborted = got.cat != C_OK;
             // C13: a parser in which two options share a letter refuses to parse
             if (dup && got.cat != C_DEV)
+            {
+                // both properties speak here: C13 (a parser with a shared letter refuses to parse) and
+                // C14 (a fresh parser with this declaration refuses, the long-lived one does not)
+                if (prop == "C14" && want.cat == C_DEV)
+                    return fail("C14/differs-from-fresh:outcome", op, opi, ctx,
+                                std::string("long-lived parser: ") + CATNAME[got.cat] + ", fresh parser: developer-error (two options share a letter)");
                 return fail("C13/duplicate-letter-parsed", op, opi, ctx, std::string("two options share a letter, parse ended with ") + CATNAME[got.cat]);
+            }
             if (got.cat == C_BADALLOC || got.cat == C_OTHER)
                 return fail("C14/differs-from-fresh:outcome", op, opi, ctx, std::string("parse ended with ") + CATNAME[got.cat]);
             if (got.cat != want.cat)
